@@ -58,6 +58,9 @@ pub struct GoSpec {
     /// intact `readyok` line, and no other line may be damaged by it)
     #[serde(default)]
     pub pings: u8,
+    /// in-process sessions: `ucinewgame` is sent right behind the `stop` (both are waiting when the search polls)
+    #[serde(default)]
+    pub newgame_right_after_stop: bool,
     /// text sessions only: a command line the GUI sends in the middle of a stop-terminated search
     /// (`ucinewgame`, `debug on|off`): whatever the engine does with it, the output of the running search stays coherent
     #[serde(default)]
@@ -222,6 +225,70 @@ impl Session {
         }
     }
 
+    /// as `wait_bestmove`, watching the engine's own progress reports: `stop_sent` = when `stop` went out,
+    /// `movetime` = an explicit move time that is in force
+    pub fn wait_bestmove_live(&mut self, stop_sent: Option<Instant>, movetime: Option<u64>) -> Wait {
+        let t0 = Instant::now();
+        let mut infos: Vec<Info> = Vec::new();
+        let mut others = 0;
+        let (mut polls_after_stop, mut reports_beyond_limit) = (0u32, 0u32);
+        loop {
+            match self.rx.recv_timeout(Duration::from_millis(50)) {
+                Ok(UciTxCommand::BestMove { best_move, ponder_move }) => return Wait::Done(SearchOutput { infos, best: best_move, ponder: ponder_move, others }),
+                Ok(UciTxCommand::Info { info }) => {
+                    // (only the reports of the poll site count: they carry no depth. Iteration reports prove nothing — on a
+                    // dead-drawn root the engine finishes hundreds of iterations per second without ever polling, see K1)
+                    let poll_report = info.depth.is_none() && info.score.is_none() && info.principal_variation.is_none();
+                    if poll_report && stop_sent.map_or(false, |t| t.elapsed() > Duration::from_millis(300)) {
+                        polls_after_stop += 1;
+                    }
+                    if let (true, Some(limit), Some(t)) = (poll_report, movetime, info.time) {
+                        if t.as_millis() as u64 >= limit + 3_000 {
+                            reports_beyond_limit += 1;
+                        }
+                    }
+                    if infos.len() < 100_000 {
+                        infos.push(info);
+                    }
+                    let lost = if polls_after_stop >= 60 {
+                        Some(format!("the search goes on after `stop`: {polls_after_stop} further progress reports (one per 100,000 nodes, each of which looks at the command queue) and no bestmove"))
+                    } else if reports_beyond_limit >= 3 {
+                        Some(format!("the search goes on beyond its limit: the engine itself reports {:?} ms for `go movetime {}`", infos.last().and_then(|i| i.time).map(|t| t.as_millis()), movetime.unwrap_or(0)))
+                    } else {
+                        None
+                    };
+                    if let Some(why) = lost {
+                        // end it for good (a fresh stop), then report
+                        self.stop();
+                        let t1 = Instant::now();
+                        while t1.elapsed() < Duration::from_secs(20) {
+                            if let Ok(UciTxCommand::BestMove { .. }) = self.rx.recv_timeout(Duration::from_millis(50)) {
+                                break;
+                            }
+                        }
+                        return Wait::ThreadDied(why, None);
+                    }
+                }
+                Ok(_) => others += 1,
+                Err(RecvTimeoutError::Timeout) => {
+                    if self.thread_finished() {
+                        while let Ok(m) = self.rx.try_recv() {
+                            if let UciTxCommand::BestMove { best_move, ponder_move } = m {
+                                return Wait::Done(SearchOutput { infos, best: best_move, ponder: ponder_move, others });
+                            }
+                        }
+                        let deepest = infos.iter().filter_map(|i| i.depth).max().map(u64::from);
+                        return Wait::ThreadDied("the search thread terminated without sending bestmove".into(), deepest);
+                    }
+                    if t0.elapsed() > WATCHDOG {
+                        return Wait::Timeout;
+                    }
+                }
+                Err(RecvTimeoutError::Disconnected) => return Wait::ThreadDied("output channel closed".into(), infos.iter().filter_map(|i| i.depth).max().map(u64::from)),
+            }
+        }
+    }
+
     /// run one search to its bestmove, sending `stop` when the spec asks for it
     pub fn search(&mut self, spec: &GoSpec) -> Wait {
         self.go(spec);
@@ -229,15 +296,22 @@ impl Session {
             std::thread::sleep(Duration::from_millis(ms));
             self.send(UciCommand::PonderHit);
         }
+        let mut stop_sent = None;
         if let Some(ms) = spec.stop_after_ms {
             std::thread::sleep(Duration::from_millis(ms));
             self.stop();
+            stop_sent = Some(Instant::now());
+            if spec.newgame_right_after_stop {
+                self.new_game();
+            }
         } else if spec.is_unbounded() {
             // never leave an unbounded search running
             std::thread::sleep(Duration::from_millis(30));
             self.stop();
+            stop_sent = Some(Instant::now());
         }
-        self.wait_bestmove()
+        let movetime = if !spec.ponder || spec.ponderhit_after_ms.is_some() { spec.movetime } else { None };
+        self.wait_bestmove_live(stop_sent, movetime)
     }
 
     /// messages that arrive although no search is running (there must be none)
